@@ -613,6 +613,9 @@ func v1Headers(r *hx.Run) {
 			arg = "-"
 		}
 		r.Op("v1header "+arg, got, false)
+		if (got == "true") != (h == "1") {
+			r.Fail("", fmt.Sprintf("Parse of a zip whose export header is %q: accepted=%s (only the version this code writes, \"1\", may be imported)", h, got))
+		}
 	}
 }
 
@@ -654,6 +657,40 @@ func v1Witness(r *hx.Run) {
 	calls, out = importOp(r, ctx, ds2, second)
 	if p := v1Check(ds2, map[string]bool{"osv": true}, calls); out != "" || p != "" {
 		r.Fail("", "v1 incremental export/import: "+out+" "+p+" "+describeFakes(ds2))
+	}
+}
+
+// v1Big: updaters whose fetched data is far larger than one zstd block or
+// window (real feeds are tens of MiB); oracle only, the lines would be too
+// long for the protocol.
+func v1Big(r *hx.Run, rnd *hx.Rand, n int) {
+	ctx := context.Background()
+	mk := func(name string, nv, ne int) *fakeData {
+		d := &fakeData{name: name, fp: "big-" + name, hasV: nv > 0, hasE: ne > 0 || nv == 0}
+		for i := 0; i < nv; i++ {
+			d.vulns = append(d.vulns, fmt.Sprintf("v%d", rnd.Intn(1<<30)))
+		}
+		for i := 0; i < ne; i++ {
+			d.enrich = append(d.enrich, fmt.Sprintf("t%d", rnd.Intn(1<<30)))
+		}
+		return d
+	}
+	ds := []*fakeData{mk("big-a", n, 0), mk("small", 3, 2), mk("big-b", n/2, n/2)}
+	desc := fmt.Sprintf("updaters=[big-a(V%d) small(V3E2) big-b(V%dE%d)]", n, n/2, n/2)
+	r.Case("v1-big "+desc, true)
+	r.Count("v1:big-scenario")
+	export, _, out := v1Export(ctx, ds, nil)
+	if out != "" {
+		r.Fail("", "v1 export failed ("+out+") "+desc)
+		return
+	}
+	calls, out := v1Import(ctx, ds, export)
+	if out != "" {
+		r.Fail("", "v1 import failed ("+out+") "+desc)
+		return
+	}
+	if p := v1Check(ds, map[string]bool{"big-a": true, "small": true, "big-b": true}, calls); p != "" {
+		r.Fail("", "v1 export/import round trip: "+p+" "+desc)
 	}
 }
 
